@@ -72,9 +72,7 @@ func (a *algRun) emit(op, ob string) {
 }
 
 func (a *algRun) mon(s string) {
-	if len(a.st.Monitors) < 60 {
-		a.st.Monitors = append(a.st.Monitors, s)
-	}
+	addMonitor(&a.st.Monitors, s)
 }
 
 // dkgAlgebra: after a completed key generation, compare shares / polynomial / group key (C02) and
